@@ -120,11 +120,14 @@ class LayerFn:
             return {n.id for n in ast.walk(node) if isinstance(n, ast.Name)}
 
         def benign_seek(st):
-            # X.seek(<constant>) on a parameter cannot fail on an in-memory stream
-            return (isinstance(st, ast.Expr) and isinstance(st.value, ast.Call)
-                    and isinstance(st.value.func, ast.Attribute) and st.value.func.attr in ("seek", "tell")
-                    and isinstance(st.value.func.value, ast.Name)
-                    and all(isinstance(a, ast.Constant) for a in st.value.args))
+            # X.seek(<constant>) / X.tell() / y = X.read() / X.getvalue() on a parameter: accessors of the in-memory
+            # stream the caller handed over; they cannot fail because of the bytes in it
+            val = st.value if isinstance(st, (ast.Expr, ast.Assign, ast.AnnAssign)) else None
+            return (isinstance(val, ast.Call)
+                    and isinstance(val.func, ast.Attribute)
+                    and val.func.attr in ("seek", "tell", "read", "getvalue", "getbuffer")
+                    and isinstance(val.func.value, ast.Name) and val.func.value.id in params
+                    and all(isinstance(a, ast.Constant) for a in val.args) and not val.keywords)
 
         def outside(stmts):
             for st in stmts:
@@ -134,7 +137,7 @@ class LayerFn:
                 if isinstance(st, ast.Expr) and isinstance(st.value, ast.Constant):
                     continue                                   # docstring
                 touches = bool(names(st) & tainted) and not benign_seek(st)
-                if isinstance(st, (ast.Assign, ast.AnnAssign, ast.AugAssign)) and touches:
+                if isinstance(st, (ast.Assign, ast.AnnAssign, ast.AugAssign)) and (touches or benign_seek(st)):
                     tg = st.targets if isinstance(st, ast.Assign) else [st.target]
                     for t in tg:
                         tainted.update(names(t))
